@@ -533,8 +533,30 @@ def c09(tier, repo=None):
             sc["state"] = bool(sc.get("rerun"))
             sc["post"] = sc["hmod"] = False
             sc.pop("smod", None)
+            engine.sanitize(sc)
     callers = 4 if quick else 8
-    lines, wall_go, _ = engine.replay_concurrent(scs, callers=callers, repo=repo)
+    try:
+        lines, wall_go, _ = engine.replay_concurrent(scs, callers=callers, repo=repo)
+    except engine.FrameworkCrash as c1:
+        # "no data race occurs in framework code": the Go runtime killed the process (concurrent map access, nil map ...) with the
+        # innermost eino frame in non-test code.  Reproduce once; then it is a violation, not a harness problem.
+        log("  the test process died under concurrent use: %s; running the same scenarios again" % c1)
+        try:
+            engine.replay_concurrent(scs, callers=callers, repo=repo)
+        except engine.FrameworkCrash as c2:
+            verdict = vlib.Verdict(prop)
+            verdict.violation("process-killed-under-concurrent-use:" + c2.frame.split("@")[0], {"what": c2.what, "frame": c2.frame, "callers": callers,
+                                                                                                "first": str(c1), "output_tail": c2.output[-3000:]}, c2.what)
+            code, n_new, n_known = verdict.finish()
+            vlib.write_evidence(prop, tier, "model_checking", {"states": states, "transitions": trans, "traces_validated_against_impl": 1,
+                                                                "samples": [{"case": {"id": "process-killed", "scenarios": len(scs), "callers": callers},
+                                                                             "observations": [{"what": c2.what, "frame": c2.frame}]}],
+                                                                "evaluations": 1, "exhaustive": False, "scenarios": len(scs), "callers": callers,
+                                                                "rule": "process killed by the Go runtime in framework code under concurrent runs (twice)"},
+                                assumptions=[], violations=n_new, wall_s=time.time() - t0)
+            log("[C09] VIOLATION: process killed under concurrent use (%s), reproduced" % c2)
+            return code
+        raise Inconclusive("the test process died once under concurrent use (%s) but not when the scenarios were run again" % c1)
     log("  %d scenarios x %d concurrent runs on ONE compiled runnable each: %d observation lines, %.0fs" % (len(scs), callers, len(lines), wall_go))
     res = engine.validate(lines)
     idx = engine.index_cases(lines)
